@@ -313,4 +313,63 @@ def _run(case, ctx, sim):
     ctx.nontrivial(share and bool(saturating or blocked))
 
 
-CHECKS = [Check('batch', batch_case(), run, quick=500, thorough=16000, doc='alone vs in generated batch orderings')]
+# ------------------------------------------------------------------------------------------------ requests built through the API
+
+@st.composite
+def api_case(draw):
+    eq = draw(netgen.equipment(span=draw(netgen.span_entry(max_length=200, padding=10, eol=0))))
+    chain_kw = {'spans': (1, 1), 'fiber_kw': {'lumped': False, 'per_freq_loss': False}, 'fused': False, 'user_amps': False}
+    topo, truth = draw(netgen.topology(eq, n=(3, 5), extra_max=2, chain_kw=chain_kw, per_degree=False, own_policy=False))
+    pairs = []
+    for _ in range(draw(st.integers(2, 4))):
+        src = draw(st.integers(0, truth['n'] - 1))
+        dst = draw(st.integers(0, truth['n'] - 2))
+        pairs.append([src, dst + (dst >= src)])
+    return {'eq': eq, 'topo': topo, 'truth': truth, 'pairs': pairs}
+
+
+def run_api(case, ctx):
+    """PathRequest objects built with the documented defaults (no route constraint given): the route of each is the same
+    alone and after the others, and computing them leaves the class-level defaults untouched"""
+    import copy as _copy
+    from gnpy.tools.worker_utils import designed_network
+    from gnpy.topology.request import PathRequest, compute_path_dsjctn
+    from gnpy.topology.spectrum_assignment import build_oms_list
+    from gnpy.topology.topology_parameters import RequestParams
+    netgen.reset_sim_params()
+    try:
+        equipment, network = netgen.build_network(case['eq'], case['topo'])
+        designed_network(equipment, network)
+        build_oms_list(network, equipment)
+    except Exception as e:  # noqa C08 / C15
+        ctx.label('skipped:design-failed:' + type(e).__name__)
+        return
+    defaults0 = _copy.deepcopy(RequestParams.default_values)
+
+    def make(i, src, dst):
+        return PathRequest(request_id=str(i), source=f'trx R{src}', destination=f'trx R{dst}', bidir=False, trx_type='',
+                           trx_mode='', format='', path_bandwidth=0, effective_freq_slot=None, nb_channel=None,
+                           power=1e-3, tx_power=1e-3)
+
+    def routes(reqs):
+        return [[e.uid for e in p] for p in compute_path_dsjctn(network, equipment, reqs, [])]
+    alone = [routes([make(i, s, d)])[0] for i, (s, d) in enumerate(case['pairs'])]
+    if RequestParams.default_values != defaults0:
+        ctx.violation('api:class-level-request-defaults-changed', f'{defaults0} -> {RequestParams.default_values}')
+        return
+    together = routes([make(i, s, d) for i, (s, d) in enumerate(case['pairs'])])
+    for i, (a, b) in enumerate(zip(alone, together)):
+        if a != b:
+            ctx.violation('api:route-depends-on-the-other-requests',
+                          f'request {i} R{case["pairs"][i][0]}->R{case["pairs"][i][1]}: alone {[u for u in a if u.startswith("roadm")]}, '
+                          f'in the batch {[u for u in b if u.startswith("roadm")]}')
+            return
+    if RequestParams.default_values != defaults0:
+        ctx.violation('api:class-level-request-defaults-changed', f'{defaults0} -> {RequestParams.default_values}')
+    ctx.nontrivial(len({tuple(p) for p in case['pairs']}) >= 2)
+
+
+
+CHECKS = [Check('batch', batch_case(), run, quick=500, thorough=16000, doc='alone vs in generated batch orderings'),
+          Check('api-requests', api_case(), run_api, quick=150, thorough=4000,
+                doc='PathRequest objects built with the default route lists: alone vs together, class defaults untouched')]
